@@ -72,6 +72,34 @@ MCWindows == {<<-11, 11>>, <<-11, -8>>, <<-9, -8>>, <<-8, -1>>, <<-2, -1>>, <<-1
               <<-10, -9>>, <<9, 10>>, <<-9, -7>>, <<7, 9>>}
 
 Root == <<>>
+\* ---------------------------------------------------------------- what the root leaves in the table
+\* `go searchmoves ...` restricts the root to a subset S of its moves.  At the end of its move loop search() stores
+\* (value, flag, best move): LOWER_BOUND on a cutoff, otherwise - if some move beat the entry alpha - EXACT at a pv node, UPPER_BOUND at
+\* a non-pv node.  A stored entry must be a true statement about the POSITION (plain minimax over all its moves), whatever S was:
+\* the maximum over a subset is a lower bound only, so a restricted root must not store exact / upper entries (repair 02d6ef3;
+\* Variant "store_restricted_root" is the code before it).
+RECURSIVE LoopS(_, _, _, _, _, _, _)
+LoopS(S, c, alpha, beta, best, pv, n) ==
+  IF c > B THEN (IF best = -INF THEN alpha ELSE best)
+  ELSE IF c \notin S THEN LoopS(S, c + 1, alpha, beta, best, pv, n)
+  ELSE LET ch == Append(n, c)
+           r0 == -AB(ch, -(alpha + 1), -alpha)
+           r1 == IF pv /\ alpha < r0 /\ r0 < beta THEN -AB(ch, -beta, -alpha) ELSE r0
+           r == StepV(r1)
+       IN IF r > best THEN
+            (IF r > alpha THEN (IF r >= beta THEN r ELSE LoopS(S, c + 1, r, beta, r, pv, n))
+             ELSE LoopS(S, c + 1, alpha, beta, r, pv, n))
+          ELSE LoopS(S, c + 1, alpha, beta, best, pv, n)
+RootValue(S, a, b) == LoopS(S, 1, a, b, -INF, b # a + 1, Root)
+StoredFlag(S, v, a, b) ==
+  IF v >= b THEN "lower"
+  ELSE IF v > a /\ (S = 1..B \/ Variant = "store_restricted_root") THEN (IF b # a + 1 THEN "exact" ELSE "upper")
+  ELSE "none"
+EntrySound(S, a, b) == LET v == RootValue(S, a, b) f == StoredFlag(S, v, a, b) m == MM(Root) IN
+  /\ (f = "lower" => m >= v)
+  /\ (f = "exact" => m = v)
+  /\ (f = "upper" => m <= v)
+TableEntriesSound == \A S \in (SUBSET (1..B)) \ {{}} : \A w \in Windows : EntrySound(S, w[1], w[2])
 FailSoft(a, b) == LET v == AB(Root, a, b) m == MM(Root) IN
   /\ (v <= a => m <= v)
   /\ (v >= b => m >= v)
